@@ -10,13 +10,26 @@ from bvm.gen import Gen
 PROP = "C13"
 RULE = ("route tables of 1..4 applications x 1..4 command codes (the same code under several applications) x requests from "
         "the typed classes of those applications and generic requests x handler outcomes {typed answer, generic answer, None, "
-        "int, a request object, ValueError, KeyError, RuntimeError}; oracle: route-table model (exactly the handler registered "
+        "int, str, list, the answer class itself, a request object, ValueError/KeyError/RuntimeError with a message, exceptions without "
+        "arguments, with odd arguments, of an application-defined class, a failed assert}; oracle: route-table model (exactly the handler registered "
         "for (Application-ID, command code) runs), exactly one message reaches the connection layer per request, the fallback "
         "is DIAMETER_UNABLE_TO_COMPLY with the request's identifiers/Session-Id, local origin and the requester as destination; "
         "distinct = (route table shape, request class, outcome)")
 
 LIB_OF = {"S6a": "etsi_3gpp_s6a", "Gx": "etsi_3gpp_gx", "Rx": "etsi_3gpp_rx", "SWx": "etsi_3gpp_swx", "Gy": "etsi_3gpp_gy", "S13": "etsi_3gpp_s13"}
-OUTCOMES = ["typed-answer", "generic-answer", "none", "int", "request-object", "ValueError", "KeyError", "RuntimeError"]
+OUTCOMES = ["typed-answer", "generic-answer", "none", "int", "request-object", "ValueError", "KeyError", "RuntimeError",
+            "bare-exception", "exception-odd-args", "custom-exception", "assertion", "str-result", "list-result", "answer-class-not-instance"]
+
+
+class HandlerFailure(Exception):
+    """an application's own exception type, with a constructor and a __str__ of its own"""
+
+    def __init__(self, code, detail=None):
+        Exception.__init__(self)            # args stays empty, as in many hand-written exception classes
+        self.code, self.detail = code, detail
+
+    def __str__(self):
+        return "failure %s (%s)" % (self.code, self.detail)
 
 
 def execute(acc, g, case):
@@ -87,6 +100,20 @@ def execute(acc, g, case):
                         return 42
                     if outcome == "request-object":
                         return req
+                    if outcome == "str-result":
+                        return "DIAMETER_SUCCESS"
+                    if outcome == "list-result":
+                        return [DiameterAnswer(command_code=rt["code"], application_id=rt["app_id"])]
+                    if outcome == "answer-class-not-instance":
+                        return DiameterAnswer
+                    if outcome == "bare-exception":
+                        raise rng.choice([RuntimeError, NotImplementedError, KeyError, StopIteration, TimeoutError])      # no arguments at all
+                    if outcome == "exception-odd-args":
+                        raise ValueError(*rng.choice([(), (None,), (1, 2, 3), (b"\xff\xfe",), ({"a": 1},), ("\u00e9\u4e2d {0} %s {",)]))
+                    if outcome == "custom-exception":
+                        raise HandlerFailure(5012, detail=req)
+                    if outcome == "assertion":
+                        assert req is None
                     raise {"ValueError": ValueError, "KeyError": KeyError, "RuntimeError": RuntimeError}[outcome]("handler failed")
                 outcome_for[0] = produce
                 del calls[:]
